@@ -1,6 +1,12 @@
 import FV.Props.Catalog
 import FV.Ops
-/-! # C13 — a rejected container operation leaves the container as it was (FlatVec / FlatString part) -/
+import FV.Props.C12
+/-! # C13 — a rejected container operation leaves the container as it was
+
+FlatVec / FlatString: a refused `push` / `push_slice` / `push_str` changes no byte (`C13_vec_refused_unchanged`).
+FlexVec: a refused `push` — for whatever reason — leaves exactly the same sequence of items, slot for slot and image for image
+(`C13_flex_push_refused_unchanged`); bytes may differ only behind the last item, where no accessor looks. Since every later
+operation acts on the chain (`C12_truncate`, `C12_pop`, `C12_push`), later operations behave as if the call had not happened. -/
 namespace FV.Props
 open FV
 
@@ -37,6 +43,21 @@ theorem C13_vec_refused_unchanged (g : VecGeo) (bs : Bytes) (len : Nat) (op : Op
         have := bind_ret (f := fun b => b) h; rw [hr] at this; cases this
       | err e => rw [h1] at h; simp at h
       | fault f => rw [h1] at h; simp at h
+
+/-- **C13 (FlexVec).** Whenever `FlexVec::push` returns an error — no room for a slot, no room for the item, the item's
+emplacer fails (nested error), or the offset needed to seal the previous item is not representable in the length type — the
+vector is the same sequence of items as before: same length, same slots, same item images; it never faults. -/
+theorem C13_flex_push_refused_unchanged (it : Ty) (h : it.WF) (l : LenTy) (hl : l.Law) (i : Init) (hw : InitWT it i)
+    (data : Slice) (items : List (Nat × Bytes)) (hc : Chain it.dict l (max l.size it.dict.align) 0 data items)
+    (hend : data.len % max l.align it.dict.align = 0) :
+    ∃ o, flexPush it l i data = .ok o ∧ o.bytes.length = data.len ∧
+      (∀ e, o.res = .error e → Chain it.dict l (max l.size it.dict.align) 0 ⟨data.addr, o.bytes⟩ items) := by
+  obtain ⟨o, h1, h2, _, h4⟩ := C12_push it h l hl i hw data items hc hend
+  exact ⟨o, h1, h2, h4⟩
+
+/-- non-vacuity: a 3-byte item does not fit behind the one item of this 8-byte `FlexVec<FlatVec<u8,u8>, u8>`: refused, unchanged -/
+example : flexPush (.vec u8 L8) L8 (.vecArr [[1],[2],[3],[4],[5],[6]]) ⟨0, [255, 2, 7, 8, 9, 9, 9, 9]⟩ =
+    .ok ⟨[255, 2, 7, 8, 9, 0, 9, 9], .error ⟨.insufficientSize, 5⟩⟩ := by decide +kernel
 
 /-- non-vacuity: a full `FlatVec<u16,u16>` refuses the push and is unchanged -/
 example : vecOp ⟨L16, 2, 2, 2⟩ [2,0, 1,0, 2,0, 9] 2 (.push [3,0]) = .ok ⟨.full, [2,0, 1,0, 2,0, 9]⟩ := by decide
